@@ -97,6 +97,13 @@ def dispatch (op : String) (args obs : List String) : Outcome :=
          prop := if b == "bad=0" then .ok else .bad (" ; ".intercalate (tags.map fun t => s!"{t} concurrent scenario {scen}: {" ".intercalate (b :: rest)}")),
          branch := s!"conc.{scen}" }
      | _, _ => { corr := .bad "bad-line" })
+  | "WC" =>
+    match opWC args obs with
+    | some d =>
+      { corr := match d.corr with | none => .ok | some w => .bad w,
+        prop := if d.fails.isEmpty then .ok else .bad (" ; ".intercalate d.fails),
+        branch := d.branch }
+    | none => { corr := .bad "bad-line" }
   | "WSCONC" =>
     (match obs with
      | b :: rest =>
